@@ -14,7 +14,7 @@
      "ccpr"     v = << qr, qi, rr, ri >>      chi = r/(-i x - q) + conj(r)/(-i x - conj(q))
    Unified(p) is the (w2, g, a, b) quadruple of the common second-order form
        chi = (a - i x b) / (w2 - x^2 - i g x)
-   Coef(u, variant) is the documented recurrence-coefficient map (compute_pole_coefficients_*),
+   Coef(u, variant) is the documented recurrence-coefficient map (compute_pole_coefficients_per_axis / _tensor),
    Inverse(c) the documented inverse map (susceptibility_from_coefficients).                            *)
 EXTENDS Integers, Sequences, FiniteSets, TLC
 
@@ -30,15 +30,15 @@ Norm(n, d) == IF n = 0 THEN << 0, 1 >>
 Rn(x)      == Norm(x[1], x[2])                      \* normalise a pair read from JSON
 RI(k)      == << k, 1 >>
 RZ         == << 0, 1 >>
-RAdd(x, y) == Norm(x[1] * y[2] + y[1] * x[2], x[2] * y[2])
-RSub(x, y) == Norm(x[1] * y[2] - y[1] * x[2], x[2] * y[2])
+RAdd(x, y) == LET k == GCD(x[2], y[2]) IN Norm(x[1] * (y[2] \div k) + y[1] * (x[2] \div k), (x[2] \div k) * y[2])
+RSub(x, y) == LET k == GCD(x[2], y[2]) IN Norm(x[1] * (y[2] \div k) - y[1] * (x[2] \div k), (x[2] \div k) * y[2])
 RMul(x, y) == LET a == Norm(x[1], y[2])  b == Norm(y[1], x[2]) IN Norm(a[1] * b[1], a[2] * b[2])
 RDiv(x, y) == RMul(x, Norm(y[2], y[1]))             \* y # 0
 RNeg(x)    == << 0 - x[1], x[2] >>
 RSq(x)     == << x[1] * x[1], x[2] * x[2] >>
 RHalf(x)   == Norm(x[1], 2 * x[2])
-RLe(x, y)  == x[1] * y[2] <= y[1] * x[2]
-RLt(x, y)  == x[1] * y[2] < y[1] * x[2]
+RLe(x, y)  == LET k == GCD(x[2], y[2]) IN x[1] * (y[2] \div k) <= y[1] * (x[2] \div k)
+RLt(x, y)  == LET k == GCD(x[2], y[2]) IN x[1] * (y[2] \div k) < y[1] * (x[2] \div k)
 RAbs(x)    == << Abs(x[1]), x[2] >>
 RIsZ(x)    == x[1] = 0
 
